@@ -70,6 +70,38 @@ pub struct History {
 /// which the sparse stream can store as a run-length extent.
 pub const SYN_MIN: usize = 1 << 20;
 
+/// Samples are opaque bytes to the muxer and to the file format - but real payloads have
+/// shapes, and a "helpful" muxer or reader might act on them. Seven fill seeds in sixteen give
+/// the sample a codec-shaped beginning whose embedded length (where there is one) matches the
+/// sample size exactly: an ADTS header without / with CRC (AAC elementary streams), Annex B
+/// start codes (H.264 / H.265 byte streams), a 4-byte length prefix (length-prefixed NAL
+/// units), a 2-byte length prefix (3GPP timed text), a UTF-8 byte order mark. Whatever the
+/// track kind: every sample must come back byte for byte.
+pub fn shape_prefix(fill: u64, size: usize) -> ([u8; 9], usize) {
+    let mut p = [0u8; 9];
+    let sel = (fill >> 7) % 16;
+    let fl = size as u32;
+    let adts = |p: &mut [u8; 9], crc: bool| {
+        p[0] = 0xFF;
+        p[1] = if crc { 0xF0 } else { 0xF1 };
+        p[2] = (1 << 6) | (4 << 2) | 0; // AAC LC, 44.1 kHz
+        p[3] = (2 << 6) | ((fl >> 11) & 3) as u8; // stereo, frame_length bits 12..11
+        p[4] = ((fl >> 3) & 0xFF) as u8;
+        p[5] = (((fl & 7) << 5) as u8) | 0x1F;
+        p[6] = 0xFC;
+    };
+    match sel {
+        3 if size >= 8 && size <= 8191 => { adts(&mut p, false); (p, 7) }
+        4 if size >= 10 && size <= 8191 => { adts(&mut p, true); p[7] = 0xAB; p[8] = 0xCD; (p, 9) }
+        5 if size >= 5 => { p[3] = 1; p[4] = 0x65; (p, 5) }
+        6 if size >= 4 => { p[2] = 1; p[3] = 0x41; (p, 4) }
+        7 if size >= 4 => { p[..4].copy_from_slice(&(fl - 4).to_be_bytes()); (p, 4) }
+        8 if size >= 2 && size <= 65537 => { p[..2].copy_from_slice(&((fl - 2) as u16).to_be_bytes()); (p, 2) }
+        9 if size >= 3 => { p[..3].copy_from_slice(&[0xEF, 0xBB, 0xBF]); (p, 3) }
+        _ => (p, 0),
+    }
+}
+
 pub fn sample_bytes(fill: u64, size: usize) -> Vec<u8> {
     if size >= SYN_MIN {
         return crate::streams::synth_payload(fill, size);
@@ -78,6 +110,8 @@ pub fn sample_bytes(fill: u64, size: usize) -> Vec<u8> {
     for i in 0..size {
         v.push(crate::streams::fill_byte(fill, i as u64));
     }
+    let (p, n) = shape_prefix(fill, size);
+    v[..n].copy_from_slice(&p[..n]);
     v
 }
 
@@ -85,7 +119,12 @@ pub fn sample_byte_at(fill: u64, size: usize, i: u64) -> u8 {
     if size >= SYN_MIN {
         crate::streams::synth_byte(fill, size as u64, i)
     } else {
-        crate::streams::fill_byte(fill, i)
+        let (p, n) = shape_prefix(fill, size);
+        if (i as usize) < n {
+            p[i as usize]
+        } else {
+            crate::streams::fill_byte(fill, i)
+        }
     }
 }
 
